@@ -18,6 +18,12 @@ pub struct Case {
     pub params: Vec<(String, Option<String>)>,
     /// marketing parameters (key from the configured set, simple value) and the positions they are spliced in at
     pub marketing: Vec<(u8, String, String)>,
+    /// redirect target: 0 `/t`, 1 `/t#frag`, 2 `/t?x=1#frag`, 3 `/t?x=1`
+    #[serde(default)]
+    pub target_kind: u8,
+    /// an empty parameter (`=`, empty key and empty value) is spliced into the query; like a repeated key, only P1 / P4 / P6 are then required
+    #[serde(default)]
+    pub empty_param: Option<u8>,
     /// permutation keys for the query
     pub perm: Vec<u16>,
     /// position selector for the single-character mutation
@@ -53,7 +59,8 @@ pub fn url_of(path: &str, params: &[(String, Option<String>)]) -> String {
     }
 }
 
-const SKIPPED_SET: &AsciiSet = &CONTROLS.add(b' ').add(b'"').add(b'#').add(b'<').add(b'>').add(b'+');
+// what a forwarded parameter must keep encoded inside a target URL: the request-side set plus what delimits parameters or starts an escape
+const SKIPPED_SET: &AsciiSet = &CONTROLS.add(b' ').add(b'"').add(b'#').add(b'<').add(b'>').add(b'+').add(b'%').add(b'&').add(b'=');
 
 fn matches(router: &redirectionio::router::Router<redirectionio::api::Rule>, uri: &str) -> (bool, Request) {
     // (the host only matters to the rules that carry a host marker)
@@ -129,11 +136,25 @@ pub fn check(case: &Case) -> Outcome {
             repeated = true;
         }
     }
+    if let Some(pos) = case.empty_param {
+        let at = pos as usize % (params_owned.len() + 1);
+        params_owned.insert(at, (String::new(), Some(String::new())));
+        repeated = true;
+    }
     let case = &Case { params: params_owned, ..case.clone() };
     let u = url_of(&case.path, &case.params);
+    let target = ["/t", "/t#frag", "/t?x=1#frag", "/t?x=1"][case.target_kind as usize % 4];
+    // forwarded parameters go in front of the fragment
+    let with_params = |p: &str| -> String {
+        let (base, frag) = match target.find('#') {
+            Some(i) => (&target[..i], &target[i..]),
+            None => (target, ""),
+        };
+        format!("{base}{}{p}{frag}", if base.contains('?') { '&' } else { '?' })
+    };
     let mut rule = RuleSpec::simple("u", &case.path);
     rule.source.query = if case.params.is_empty() { None } else { Some(query_of(&case.params)) };
-    rule.target = Some("/t".to_string());
+    rule.target = Some(target.to_string());
     rule.status_code = Some(301);
     if case.host_marker {
         rule.source.host = Some("@shop.example.org".to_string());
@@ -269,7 +290,7 @@ pub fn check(case: &Case) -> Outcome {
                         if dv.is_empty() { utf8_percent_encode(&decode(k), SKIPPED_SET).to_string() } else { format!("{}={}", utf8_percent_encode(&decode(k), SKIPPED_SET), utf8_percent_encode(&dv, SKIPPED_SET)) }
                     })
                     .collect();
-                let exp = if cfg.pass_marketing_query_params_to_target { format!("/t?{}", skipped.join("&")) } else { "/t".to_string() };
+                let exp = if cfg.pass_marketing_query_params_to_target { with_params(&skipped.join("&")) } else { target.to_string() };
                 if loc.as_deref() != Some(exp.as_str()) {
                     out.fail(format!("P4: request {um:?}: Location is {:?}, expected {:?} (pass flag {})", loc, exp, cfg.pass_marketing_query_params_to_target));
                     return out;
@@ -280,6 +301,16 @@ pub fn check(case: &Case) -> Outcome {
                     return out;
                 }
                 out.class(if cfg.pass_marketing_query_params_to_target { "P4:passed-to-target" } else { "P4:dropped" });
+                // P4+P5: under the case flag the letter case of a marketing parameter does not matter either
+                if cfg.ignore_path_and_query_case {
+                    let swapped = swap_ascii_case_outside_escapes(&um);
+                    let (ms, _) = matches(&router, &swapped);
+                    if !ms {
+                        out.fail(format!("P4+P5: marketing parameters and letter case are ignored, the rule from {u:?} matches {um:?} but not its case swap {swapped:?}"));
+                        return out;
+                    }
+                    out.class("P4+P5:case-swapped-marketing");
+                }
             } else {
                 // not ignored: they are ordinary parameters, the URL is a different one
                 if mm {
@@ -314,10 +345,10 @@ pub fn strategy() -> BoxedStrategy<Case> {
     let path = prop::collection::vec(atoms(PATH_ATOMS, 1, 3), 0..=4).prop_map(|segs| format!("/{}", segs.join("/")));
     let param = (atoms(KEY_ATOMS, 1, 2), prop_oneof![1 => Just(None), 1 => Just(Some(String::new())), 6 => atoms(VAL_ATOMS, 1, 3).prop_map(Some)]);
     let params = prop::collection::vec(param, 0..=4);
-    let marketing = prop::collection::vec((any::<u8>(), 0usize..12, pick(vec!["x".to_string(), "news letter".to_string(), "a+b".to_string(), "%C3%A9".to_string(), "".to_string()])), 0..=2);
+    let marketing = prop::collection::vec((any::<u8>(), 0usize..12, pick(vec!["x".to_string(), "news letter".to_string(), "a+b".to_string(), "%C3%A9".to_string(), "".to_string(), "50%25ad".to_string(), "news%26mail".to_string(), "a%3Db".to_string(), "%2541".to_string()])), 0..=2);
     let repeat = prop::option::weighted(0.12, (any::<u8>(), any::<u8>(), pick(vec!["1".to_string(), "2".to_string(), "".to_string(), "%41".to_string(), "x+y".to_string()])));
-    (config_strategy(), path, params, marketing, prop::collection::vec(any::<u16>(), 4), any::<u16>(), (repeat, prop::bool::weighted(0.25)))
-        .prop_map(|(config, path, params, marketing, perm, mutate_at, (repeat, host_marker))| {
+    (config_strategy(), path, params, marketing, prop::collection::vec(any::<u16>(), 4), any::<u16>(), (repeat, prop::bool::weighted(0.25), 0u8..4, prop::option::weighted(0.08, any::<u8>())))
+        .prop_map(|(config, path, params, marketing, perm, mutate_at, (repeat, host_marker, target_kind, empty_param))| {
             // keep decoded keys distinct under case folding, non-empty, and outside the marketing set
             let mut seen: Vec<String> = Vec::new();
             let mut ps = Vec::new();
@@ -333,7 +364,7 @@ pub fn strategy() -> BoxedStrategy<Case> {
             // spellings as a URL carries them; the configured names are their decoded forms
             let all = ["utm_source", "utm_medium", "utm_campaign", "utm_term", "utm_content", "ref", "gclid", "r%C3%A9f", "r\u{e9}f", "ad%20id", "ad+id", "c%2B"];
             let marketing = marketing.into_iter().map(|(pos, k, v)| (pos, all[k].to_string(), v)).collect();
-            Case { config, path, params: ps, marketing, perm, mutate_at, repeat, host_marker }
+            Case { config, path, params: ps, marketing, target_kind, empty_param, perm, mutate_at, repeat, host_marker }
         })
         .boxed()
 }
